@@ -14,7 +14,7 @@ CLAUSES = {
     "dense-fill": "dense layout: [record, pid] holds the value while the particle lives and fill otherwise",
 }
 BOUNDS = {
-    "quick": "Nsteps 3, record every step, 2 release rows at any steps with mult 0..2 (<=3 particles), each particle dies at any step or never (IBM), numrec 0 or 2, sparse and dense; positions, velocity, particle values, reference time symbolic",
+    "quick": "Nsteps 3, record every step, 2 release rows at any steps with mult 0..2 (<=3 particles), each particle dies at any step or never (IBM), numrec 0 or 2, sparse and dense, three time-reversed scenarios; positions, velocity, particle values, reference time symbolic",
     "thorough": "Nsteps 4, 3 rows, <=4 particles, period 1 and 2",
 }
 ASSUMES = ["values are stored exactly (no f4/i4 narrowing)", "constant symbolic velocity, EF, interior positions (the tracker itself is C01/C09)"]
@@ -37,6 +37,10 @@ def scenarios(tier):
                         continue
                     out.append(dict(name=f"{layout}-nr{numrec}-p{per}-rel{''.join(map(str, rs))}", fn="run",
                                     params=dict(layout=layout, numrec=numrec, per=per, N=N, rs=list(rs), maxp=3 if q else 4), cost=20))
+    # time-reversed runs (negative output period inside the writer): single file and multi-file
+    out.append(dict(name="sparse-nr0-p1-rel01-rev", fn="run", params=dict(layout="sparse", numrec=0, per=1, N=N, rs=[0, 1], maxp=3, rev=True), cost=20))
+    out.append(dict(name="sparse-nr2-p1-rel01-rev", fn="run", params=dict(layout="sparse", numrec=2, per=1, N=N, rs=[0, 1], maxp=3, rev=True), cost=20))
+    out.append(dict(name="dense-nr2-p2-rel01-rev", fn="run", params=dict(layout="dense", numrec=2, per=2, N=4, rs=[0, 1], maxp=3, rev=True), cost=30))
     if q:
         # one scenario with records every second step (record number != step number)
         out.append(dict(name="sparse-nr0-p2-rel01", fn="run", params=dict(layout="sparse", numrec=0, per=2, N=N, rs=[0, 1], maxp=3), cost=20))
@@ -69,12 +73,14 @@ def run(W, p):
         if k < N:
             kill.setdefault(k, {})[pid] = True
     tmp = W.scratch()
-    rows = [[W.dt(T0 + rs[i] * DT), x[i], 10, 5, mult[i], w0[i]] for i in range(R)]
+    rev = bool(p.get("rev"))
+    sgn = -1 if rev else 1
+    rows = [[W.dt(T0 + sgn * rs[i] * DT), x[i], 10, 5, mult[i], w0[i]] for i in range(R)]
     W.table(tmp / "r.rls", ["release_time", "X", "Y", "Z", "mult", "w0"], rows)
     ivars = dict(pid=ovar("i4"), X=ovar("f8"), age=ovar("f8"), temp=ovar("f8"), lon=ovar("f8"), lat=ovar("f8"))
     pvars = dict(w0=ovar("f8"), release_time=ovar("f8", units="seconds since reference_time"))
     cfg = base_config(
-        W, start=T0, stop=T0 + N * DT, dt=DT, reference=ref, release_file=tmp / "r.rls", u=u, temp=temp,
+        W, start=T0, stop=T0 + sgn * N * DT, dt=DT, rev=rev, reference=ref, release_file=tmp / "r.rls", u=u, temp=temp,
         state=dict(instance_variables=dict(age=float, temp=float, lon=float, lat=float), particle_variables=dict(w0=float, release_time="time"), default_values=dict(age=0, temp=0, lon=0, lat=0)),
         ibm=dict(kill=kill, age=True),
         output=dict(filename=str(tmp / "out.nc"), output_period=per * DT, instance_variables=ivars, particle_variables=pvars, layout=layout, numrec=p["numrec"]),
@@ -117,7 +123,7 @@ def run(W, p):
         # time coordinate
         tconds = [len(V["time"]) == len(recs)]
         for k, r in enumerate(recs):
-            tconds.append(False if k >= len(V["time"]) or W.is_fill(V["time"][k]) else W.eq(V["time"][k], T0 + rec_steps[r] * DT - ref))
+            tconds.append(False if k >= len(V["time"]) or W.is_fill(V["time"][k]) else W.eq(V["time"][k], T0 + sgn * rec_steps[r] * DT - ref))
         # the units attribute must name the reference time the values are relative to
         tconds.append(_units_ref(d["atts"]["time"].get("units", ""), W) == W.idx(ref) if not W.symbolic else _units_ok(W, d["atts"]["time"].get("units", ""), ref))
         W.prove(W.all(tconds), "time-coordinate", dict(file=fname, units=d["atts"]["time"].get("units")))
@@ -165,7 +171,7 @@ def run(W, p):
         released = [pid for pid in range(total) if rs[owner[pid]] <= s_last]
         conds = []
         for pid in released:
-            for var, exp in (("w0", w0[owner[pid]]), ("release_time", T0 + rs[owner[pid]] * DT - ref)):
+            for var, exp in (("w0", w0[owner[pid]]), ("release_time", T0 + sgn * rs[owner[pid]] * DT - ref)):
                 arr = V.get(var, [])
                 if pid >= len(arr) or W.is_fill(arr[pid]):
                     conds.append(False)
